@@ -17,6 +17,14 @@ from vf import common, llsym, pysym, symstr, hutil
 from harness.C23 import sym_eq
 
 
+def _is_utf8(name):
+    import codecs
+    try:
+        return isinstance(name, str) and codecs.lookup(name).name == 'utf-8'
+    except LookupError:
+        return False
+
+
 def worker(args):
     prop, tier, what = args
     sys.path.insert(0, os.path.join(common.REPO, 'src'))
@@ -118,7 +126,7 @@ def worker(args):
             if okk:
                 p_, mode, kw = rec.opened[0]
                 hutil.discharge(chk, ex, name + ':opened-for-writing-utf-8',
-                                (mode == 'w') and kw.get('encoding') == 'utf-8' and (sym_eq(p_, outpath) is True or p_ is outpath),
+                                (mode in ('w', 'wt')) and _is_utf8(kw.get('encoding')) and (sym_eq(p_, outpath) is True or p_ is outpath),
                                 inputs)
                 hutil.discharge(chk, ex, name + ':file-closed', len(rec.closed) == 1, inputs)
 
